@@ -101,7 +101,18 @@ pub fn set_case(args: std::fmt::Arguments) {
     let _ = std::fmt::write(&mut w, args);
     CASE_LEN.store(w.pos, Ordering::SeqCst);
     CASE_SEQ.fetch_add(1, Ordering::SeqCst);
+    // under valgrind the process is ended from outside on the first error: keep the case on disk at all times
+    if EAGER_CASE.load(Ordering::Relaxed) {
+        unsafe {
+            if CRASH_FD >= 0 {
+                libc::ftruncate(CRASH_FD, 0);
+                libc::pwrite(CRASH_FD, b"CASE\n".as_ptr() as *const _, 5, 0);
+                libc::pwrite(CRASH_FD, std::ptr::addr_of!(CASE_BUF) as *const _, w.pos, 5);
+            }
+        }
+    }
 }
+static EAGER_CASE: std::sync::atomic::AtomicBool = std::sync::atomic::AtomicBool::new(false);
 #[macro_export]
 macro_rules! case { ($($arg:tt)*) => { $crate::run::set_case(format_args!($($arg)*)) } }
 
@@ -134,6 +145,8 @@ fn write_crash_and_exit(kind: &str, code: i32) -> ! {
 }
 
 pub fn install_crash_capture(path: &std::path::Path, case_timeout_s: u64) {
+    if std::env::var("VF_EAGER_CASE").is_ok() { EAGER_CASE.store(true, Ordering::Relaxed); }
+    let case_timeout_s = if std::env::var("VF_EAGER_CASE").is_ok() { case_timeout_s * 30 } else { case_timeout_s };
     unsafe {
         let c = std::ffi::CString::new(path.to_str().unwrap()).unwrap();
         CRASH_FD = libc::open(c.as_ptr(), libc::O_WRONLY | libc::O_CREAT | libc::O_TRUNC, 0o644);
@@ -221,7 +234,13 @@ pub fn master(meta: &CheckMeta, tier: &str, seed: u64, extra_env: &[(String, Str
     for i in 0..nshards {
         let out = std::fs::File::create(rundir.join(format!("shard{}.json", i))).unwrap();
         let err = std::fs::File::create(rundir.join(format!("shard{}.err", i))).unwrap();
-        let mut cmd = std::process::Command::new(&exe);
+        // VF_VALGRIND=1: every worker runs under valgrind memcheck (uninitialised reads, invalid accesses); the first error
+        // ends the worker with exit code 77 and the worker keeps the current case in its crash file at all times
+        let mut cmd = if std::env::var("VF_VALGRIND").is_ok() {
+            let mut c = std::process::Command::new("valgrind");
+            c.args(["-q", "--error-exitcode=77", "--exit-on-first-error=yes", "--undef-value-errors=yes", "--track-origins=yes", "--num-callers=12"]).arg(&exe).env("VF_EAGER_CASE", "1");
+            c
+        } else { std::process::Command::new(&exe) };
         cmd.arg("worker").arg(meta.id).arg(tier).arg(seed.to_string()).arg(i.to_string()).arg(nshards.to_string())
             .env("VF_CRASH_FILE", rundir.join(format!("shard{}.crash", i)))
             .stdout(out).stderr(err);
@@ -241,6 +260,13 @@ pub fn master(meta: &CheckMeta, tier: &str, seed: u64, extra_env: &[(String, Str
                 Ok(v) => merge(&mut merged, &v),
                 Err(e) => engine_errors.push(format!("shard {}: unreadable result: {}", i, e)),
             }
+        } else if code == 77 && std::env::var("VF_VALGRIND").is_ok() {
+            let case: Value = serde_json::from_str(crash.trim_start_matches("CASE\n")).unwrap_or(json!({"raw": crash}));
+            let errtail = tail(&rundir.join(format!("shard{}.err", i)), 40);
+            let what = errtail.lines().find(|l| l.contains("==") && (l.contains("uninitialised") || l.contains("Invalid") || l.contains("Mismatched") || l.contains("overlap"))).unwrap_or("valgrind error").to_string();
+            let fp = if what.contains("uninitialised") { "valgrind:uninitialised-value" } else { "valgrind:invalid-access" };
+            merged.violation(fp, format!("valgrind memcheck in worker {}: {} | {}", i, what.trim(), errtail.replace('\n', " | ")), json!({"check": meta.id, "kind": "crash", "case": case}));
+            merged.caps.push(format!("shard {} stopped at a valgrind error; its remaining cases were not explored", i));
         } else if code == 99 || code == 98 || st.code().is_none() || is_sanitizer_exit(&rundir, i) {
             // crash / abort / hang inside the subject: a violation with the recorded case
             let mut lines = crash.lines();
